@@ -39,10 +39,10 @@ func init() {
 // parser roles
 
 type parserRoles struct {
-	advance    *ssa.Function   // nextToken: stores curToken
-	expect     *ssa.Function   // expectPeek
-	curPrec    *ssa.Function   // curPrecedence
-	peekPrec   *ssa.Function   // peekPrecedence
+	advance    *ssa.Function          // nextToken: stores curToken
+	expect     *ssa.Function          // expectPeek
+	curPrec    *ssa.Function          // curPrecedence
+	peekPrec   *ssa.Function          // peekPrecedence
 	parseFns   map[*ssa.Function]bool // methods returning an AST value
 	all        []*ssa.Function
 	errorField string
